@@ -42,14 +42,14 @@ package tan
 // appending a range that lies strictly after the last one keeps the index sorted
 //@ func (i *index) append [C09]
 //@ noframe
-//@ requires i.sorted() && validEntry(e) && (len(i.entries) > 0 ==> i.entries[len(i.entries) - 1].end < e.start)
+//@ requires i.sorted() && validEntry(e) && (len(i.entries) > 0 ==> i.entries[len(i.entries) - 1].end < e.start) [C09 C20 C10]
 //@ modifies i.entries, elems(i.entries[len(i.entries):])
 //@ ensures i.sorted() && len(i.entries) == old(len(i.entries)) + 1 && i.entries[len(i.entries) - 1] == e
 //@ ensures forall j int :: 0 <= j && j < old(len(i.entries)) ==> i.entries[j] == old(i.entries[j])
 
 //@ func (i *index) update [C09]
 //@ noframe
-//@ requires i.sorted() && e.start <= e.end && e.start > 0 && e.end < MaxUint64 && e.pos >= 0 && e.length >= 0 && e.pos + e.length < 4611686018427387904
+//@ requires i.sorted() && e.start <= e.end && e.start > 0 && e.end < MaxUint64 && e.pos >= 0 && e.length >= 0 && e.pos + e.length < 4611686018427387904 [C09 C20 C10]
 //@ modifies i.entries, elems(i.entries)
 //@ ensures i.sorted() && len(i.entries) >= 1
 // the log now ends exactly where the new range ends ...
@@ -386,3 +386,30 @@ package tan
 //@ modifies gWriteFailed, gDirDirty, gDataSynced
 //@ ensures err == nil ==> !gDirDirty
 //@ loop 1 invariant !gReadFailed && (gWriteFailed ==> err != nil)
+
+// ---------------------------------------------------------------- tan: loading index files on reopen -- the hard state record (C04)
+// From the property: the term and vote a replica persisted are what it restarts with. Index files are
+// loaded oldest first; a later file's state record ALWAYS replaces the one loaded so far (the newest
+// record may differ from the previous one in term or vote only, with an unchanged commit index).
+// Checked per iteration of the outer loop (never assumed). The rest of load (merging the entry ranges)
+// is not under contract: three attempts ended in solver timeouts (DESIGN 10).
+//@ func newReader [C04]
+//@ trusted record reader over the index file
+//@ ensures result != nil
+//@ func (r *reader) next [C04]
+//@ trusted positions the reader at the next record
+//@ func (d *indexDecoder) readUvarint [C04]
+//@ trusted reads one uvarint
+//@ extern bufio NewReader
+//@ ensures result != nil
+//@ extern github.com/lni/vfs (fs FS) Open
+//@ ensures result1 == nil ==> result0 != nil
+//@ func (i *index) decode [C04]
+//@ trusted decodes the ranges of one index from the file (five uvarints per range)
+//@ modifies *i
+//@ ensures result == nil ==> fresh(i.entries) || len(i.entries) == 0
+//@ func (s *nodeStates) load [C04]
+//@ noframe
+//@ nobounds
+//@ requires s.indexes != nil
+//@ loop 1 step len(state.entries) == 1 && state.entries[0].fileNum != 0 ==> n.state == state.entries[0]
